@@ -7,6 +7,8 @@ import SF.Lemmas.DoublePole
 import SF.Lemmas.LagfStable
 import SF.Lemmas.FlexBound
 import SF.Props.C11
+import SF.Lemmas.ChainBound
+import SF.Lemmas.Eft
 /-
   C09 — Recursive filters are stable and have fading memory for every window length.
 
@@ -361,4 +363,54 @@ theorem superSmoother_fading_outputs (N : Nat) (hN : 0 < N) (p1 p2 t : List ℝ)
   have e2 : v - w = 1 * v + -1 * w - 0 := by ring
   rw [e2]; exact hd
 
+end SF.C09.Real
+
+/-! ### "… and any chain built from them": stability composes along chains -/
+namespace SF.C09
+open SF SF.Spec
+variable {α : Type} [Field α] [LinearOrder α] [IsStrictOrderedRing α] [FloatLike α] [ExactScalar α]
+
+/-- **BIBO stability composes along a chain**, for ANY inner view `A` that realises a batch function `specA` and ANY outer
+core `B`: if everything `A` reports on prefixes of the raw input `xs` is bounded by `B1`, and `B` — fed ANY values bounded
+by `B1` — only reports values bounded by `B2`, then the chain `B(A(·))` only reports values bounded by `B2` on `xs`.
+The bounds are whatever the two stages guarantee; they do not depend on the stream length if the stages' bounds do not.
+By induction this covers chains of any depth (the chain is again a view that realises a batch function). -/
+theorem chain_bibo (A : View α) (specA : List α → Option α) (hR : Eft.Realises A specA) (B : Core α) (B1 B2 : α)
+    (xs : List α) (hA : ∀ pre, pre <+: xs → ∀ y, specA pre = some y → |y| ≤ B1)
+    (hB : ∀ ys : List α, (∀ y ∈ ys, |y| ≤ B1) → ∀ v, B.outAfter ys = .ok (some v) → |v| ≤ B2)
+    (s : A.σ × B.σ) (hs : (wrap A B).run (A.init, B.init) xs = .ok s) (v : α) (hv : (wrap A B).last s = .ok (some v)) :
+    |v| ≤ B2 := by
+  apply ChainBound.chain_guarantee A B (fun y => |y| ≤ B1) (fun v => |v| ≤ B2) xs (allFinite_exact xs) ?_ hB s hs v hv
+  intro y ⟨pre, _, hp, a', hr, hl⟩
+  obtain ⟨m, hm, hlm⟩ := hR pre
+  rw [hr] at hm; cases hm
+  rw [hl] at hlm
+  exact hA pre hp y (by simpa using hlm.symm)
+
+/-- instance: **Ema over Ema over … any BIBO view** keeps the inner bound (Ema never leaves the interval of its inputs) -/
+theorem ema_over_bibo (A : View α) (specA : List α → Option α) (hR : Eft.Realises A specA) (N : Nat) (hN : 0 < N) (B1 : α)
+    (xs : List α) (hA : ∀ pre, pre <+: xs → ∀ y, specA pre = some y → |y| ≤ B1)
+    (s : A.σ × (emaCore (α := α) N 2).σ) (hs : (wrap A (emaCore N 2)).run (A.init, (emaCore (α := α) N 2).init) xs = .ok s)
+    (v : α) (hv : (wrap A (emaCore N 2)).last s = .ok (some v)) : |v| ≤ B1 := by
+  refine chain_bibo A specA hR (emaCore N 2) B1 B1 xs hA ?_ s hs v hv
+  intro ys hys w hw
+  rw [C04.ema_eq N hN] at hw
+  exact ema_bibo N hN B1 ys hys w (by simpa using hw)
+
+end SF.C09
+
+namespace SF.C09.Real
+open SF SF.Spec
+/-- instance at ℝ: **Ema(N₂) over SuperSmoother(N₁) over the raw input** is BIBO with the SuperSmoother's bound, for all
+N₁, N₂ ≥ 1 and every stream length -/
+theorem ema_over_superSmoother_bibo (N1 N2 : Nat) (h1 : 0 < N1) (h2 : 0 < N2) (B : ℝ) (xs : List ℝ) (hx : ∀ x ∈ xs, |x| ≤ B)
+    (s) (hs : (wrap (overEcho (ssCore (α := ℝ) N1)) (emaCore N2 2)).run ((overEcho (ssCore (α := ℝ) N1)).init, (emaCore (α := ℝ) N2 2).init) xs = .ok s)
+    (v : ℝ) (hv : (wrap (overEcho (ssCore (α := ℝ) N1)) (emaCore N2 2)).last s = .ok (some v)) :
+    |v| ≤ |(Spec.ssCoef (α := ℝ) N1).c1| * B / (1 - SsStable.ssA N1) ^ 2 := by
+  refine C09.ema_over_bibo (overEcho (ssCore (α := ℝ) N1)) (Spec.superSmoother N1)
+    (Eft.realises_overEcho _ _ (fun ys => SS.outAfter_eq N1 h1 ys)) N2 h2 _ xs ?_ s hs v hv
+  intro pre hp y hy
+  apply SsStable.superSmoother_bibo N1 h1 B pre ?_ y hy
+  intro x hxm
+  exact hx x (hp.subset hxm)
 end SF.C09.Real
